@@ -605,7 +605,9 @@ where
         }
 
         // Not considering the whole header
-        if data.len() > self.config.max_packet_size.get() {
+        // Items are framed with a 16-bit length, anything larger
+        // can't ever be sent, regardless of the packet size
+        if data.len() > self.config.max_packet_size.get() || data.len() > usize::from(u16::MAX) {
             return Err(Error::DataTooBig);
         }
 
